@@ -34,3 +34,24 @@ Theorem C07_error_or_unevaluable_fails :
     forall atom err, err = true \/ atom a = ERaise -> silent atom err c = false.
 Proof. exact error_or_unevaluable_fails. Qed.
 Print Assumptions C07_error_or_unevaluable_fails.
+
+(* equality: independent of the order of the operands.  Model of pedal/utilities/comparisons.py equality_test
+   (model/C07_Equality.v), tied to the implementation by the correspondence run on every ordered pair of the operand universe;
+   proved for values of any size and nesting built from scalars, lists, tuples, sets and frozensets. *)
+From Coq Require Import QArith.
+From Pedal Require Import model.C07_Equality proof.C07_Equality_Lemmas.
+
+Theorem C07_equality_is_order_independent :
+  forall exact delta a e, dfree a = true -> dfree e = true -> equality_test exact delta a e = equality_test exact delta e a.
+Proof. exact equality_is_order_independent. Qed.
+Print Assumptions C07_equality_is_order_independent.
+
+Theorem C07_scalar_equality_symmetric : forall exact delta a e, sc_eq exact delta a e = sc_eq exact delta e a.
+Proof. exact sc_eq_sym. Qed.
+Print Assumptions C07_scalar_equality_symmetric.
+
+(* the set comparison as it was before fix 5caf932 (one direction only) does depend on the order: witness *)
+Theorem C07_one_way_set_comparison_refuted :
+  exists x y, sets_eq_one_way (sc_eq false (1 # 1000)) x y = true /\ sets_eq_one_way (sc_eq false (1 # 1000)) y x = false.
+Proof. exact one_way_set_comparison_refuted. Qed.
+Print Assumptions C07_one_way_set_comparison_refuted.
